@@ -24,11 +24,20 @@
  * Output: per op "=<slot>" (returned pointer by slot name, 0 = NULL), "." (void) or
  * "dump=<count>/<total>", each followed by "#<cnt>"; then " | T" and the table in array
  * order (ptr:size:file:line), then " | H" and the allocator's live set (slot:size). */
+#define LV_MAXTOK 16384          /* histories with more than 2048 live blocks: one token per call */
 #include "common.h"
 #include <sanitizer/asan_interface.h>
+#include <sys/types.h>
+#include <sys/socket.h>
+#include <sys/mman.h>
+#include <signal.h>
+#include <fcntl.h>
+#include <errno.h>
+#include <regex.h>
 
 /* ---------------------------------------------------------------- scripted allocator */
-#define LV_NSLOT 40
+#define LV_NSLOT 2100     /* live sets cross 255/256/257 ... 2047/2048/2049 (the table's own storage is
+                           * the real, sanitized allocator's: a record written past it is seen) */
 #define LV_SLOTSZ 128
 static unsigned char lv_arena[LV_NSLOT + 1][LV_SLOTSZ] __attribute__((aligned(64)));
 static int lv_islive[LV_NSLOT + 1];
@@ -36,6 +45,7 @@ static size_t lv_sz[LV_NSLOT + 1];
 static int lv_scripted = 0;      /* 0: pass everything to the real allocator */
 static long lv_ans = -1;         /* slot the next scripted allocator call answers with */
 static int lv_badfree = 0, lv_insane = 0;
+static long lv_hi = LV_NSLOT;    /* highest slot touched since the last reset */
 
 static long lv_slot_of(const void *p)
 {
@@ -55,6 +65,7 @@ static void *lv_take(size_t size, int zero)
     if (lv_islive[a]) { lv_insane = 1; return lv_arena[0]; }
     lv_islive[a] = 1;
     lv_sz[a] = size;
+    if (a > lv_hi) lv_hi = a;
     ASAN_POISON_MEMORY_REGION(lv_arena[a], LV_SLOTSZ);
     ASAN_UNPOISON_MEMORY_REGION(lv_arena[a], size);
     memset(lv_arena[a], zero ? 0 : 0xA5, size);
@@ -98,6 +109,7 @@ static void *lv_realloc(void *p, size_t size)
     lv_drop(a);
     lv_islive[b] = 1;
     lv_sz[b] = size;
+    if (b > lv_hi) lv_hi = b;
     ASAN_POISON_MEMORY_REGION(lv_arena[b], LV_SLOTSZ);
     ASAN_UNPOISON_MEMORY_REGION(lv_arena[b], size);
     memset(lv_arena[b], 0xA5, size);
@@ -131,7 +143,7 @@ static void *site_calloc(size_t n) { return CALLOC(lv_elem_t, n); }
 static void *site_realloc(void *p, size_t sz) { return REALLOC(p, sz); }
 static void *site_free(void *p) { FREE(p); return p; }
 static char *site_strdup(const char *s) { return STRDUP(s); }
-#line 115 "c15.c"
+#line 147 "c15.c"
 #undef malloc
 #undef calloc
 #undef realloc
@@ -144,6 +156,7 @@ static void lv_quiet(void)
 {
     /* D_MEM chatter goes to LIBAST_DEBUG_FD == stderr (the FILE, not descriptor 2, so the
      * sanitizers still report on 2) */
+    if (getenv("LV_C15_VERBOSE")) return;          /* debugging a scenario by hand */
     if (!lv_null) lv_null = fopen("/dev/null", "w");
     stderr = lv_null;
 }
@@ -153,9 +166,10 @@ static void lv_reset(void)
     free(malloc_rec.ptrs);
     malloc_rec.ptrs = NULL;
     malloc_rec.cnt = 0;
-    for (a = 0; a <= LV_NSLOT; a++) { lv_islive[a] = 0; lv_sz[a] = 0; }
-    ASAN_POISON_MEMORY_REGION(lv_arena, sizeof(lv_arena));
+    for (a = 0; a <= lv_hi; a++) { lv_islive[a] = 0; lv_sz[a] = 0; }
+    ASAN_POISON_MEMORY_REGION(lv_arena, (size_t) (lv_hi + 1) * LV_SLOTSZ);
     ASAN_UNPOISON_MEMORY_REGION(lv_arena[0], LV_SLOTSZ);
+    lv_hi = 0;
     lv_ans = -1;
     lv_badfree = lv_insane = 0;
     lv_scripted = 0;
@@ -300,9 +314,496 @@ static void scn_mapdup(spif_map_t m, int n)
     if (!SPIF_MAP_ISNULL(d1)) SPIF_MAP_DEL(d1);
     SPIF_MAP_DEL(m);
 }
+/* ---------------------------------------------------------------- error-path scenarios
+ * Every failure exit of the library that allocates before it fails: the operation is refused or
+ * fails, everything the caller owns is deleted, and the table must be empty.  `n` selects the
+ * variant; every scenario accepts every n (variants wrap). */
+static int lv_memfile(const char *text, char *path, size_t plen)
+{
+    /* a file that exists only as a descriptor of this process */
+    int fd = memfd_create("lv-c15", 0);
+    if (fd < 0) return -1;
+    if (text && *text && write(fd, text, strlen(text)) < 0) { close(fd); return -1; }
+    lseek(fd, 0, SEEK_SET);
+    snprintf(path, plen, "/proc/self/fd/%d", fd);
+    return fd;
+}
+static spif_url_t U(const char *s) { return s ? spif_url_new_from_ptr((spif_charptr_t) s) : (spif_url_t) NULL; }
+static void scn_del_sock(spif_socket_t k)
+{
+    spif_socket_t d;
+    if (SPIF_SOCKET_ISNULL(k)) return;
+    d = spif_socket_dup(k);
+    spif_socket_del(k);
+    if (!SPIF_SOCKET_ISNULL(d)) spif_socket_del(d);
+}
+static void scn_sockaccept(int n)
+{
+    spif_url_t a = U("tcp://127.0.0.1:1");
+    spif_socket_t k, r;
+    int sv[2] = { -1, -1 };
+    switch (n % 5) {
+        case 0: k = spif_socket_new_from_urls(a, (spif_url_t) NULL); break;           /* never opened: EBADF */
+        case 1: k = spif_socket_new(); break;
+        case 2: k = spif_socket_new_from_urls(a, (spif_url_t) NULL);                    /* not a socket */
+                k->fd = open("/dev/null", O_RDONLY); break;
+        case 3: k = spif_socket_new_from_urls((spif_url_t) NULL, a);                    /* connected, not listening */
+                if (socketpair(AF_UNIX, SOCK_STREAM, 0, sv) == 0) k->fd = sv[0];
+                break;
+        default: k = spif_socket_new_from_urls(a, (spif_url_t) NULL);                   /* a datagram socket */
+                k->fd = socket(AF_UNIX, SOCK_DGRAM, 0); break;
+    }
+    r = spif_socket_accept(k);
+    if (!SPIF_SOCKET_ISNULL(r)) spif_socket_del(r);
+    r = spif_socket_accept(k);                    /* and a second time */
+    if (!SPIF_SOCKET_ISNULL(r)) spif_socket_del(r);
+    scn_del_sock(k);
+    if (sv[1] >= 0) close(sv[1]);
+    spif_url_del(a);
+}
+static void scn_sockopen(int n)
+{
+    static const char *const loc[] = { "tcp://192.0.2.1:9", "unix:/nonexistent-lv-c15-dir/sock", NULL, NULL,
+                                       NULL, "udp://192.0.2.1:9", "tcp://127.0.0.1:1", NULL, "udp://127.0.0.1:0", "unix:" };
+    static const char *const rem[] = { NULL, NULL, "tcp://127.0.0.1:1", "unix:/nonexistent-lv-c15-dir/sock",
+                                       "tcp:", NULL, "tcp://192.0.2.1:9", "raw://127.0.0.1", "udp://192.0.2.1:9", "unix:" };
+    int v = n % 10;
+    spif_url_t a = U(loc[v]), b = U(rem[v]);
+    spif_socket_t k;
+    if (v == 6) { if (!SPIF_URL_ISNULL(b)) spif_url_del(b); b = U("tcp://127.0.0.1:1"); }   /* bind fails first */
+    k = spif_socket_new_from_urls(a, b);
+    spif_socket_open(k);
+    spif_socket_open(k);                          /* again after the failure */
+    spif_socket_check_io(k);
+    spif_socket_close(k);
+    spif_socket_close(k);                         /* refused: not open */
+    spif_socket_set_nbio(k);
+    spif_socket_clear_nbio(k);
+    scn_del_sock(k);
+    if (!SPIF_URL_ISNULL(a)) spif_url_del(a);
+    if (!SPIF_URL_ISNULL(b)) spif_url_del(b);
+}
+static void scn_sockio(int n)
+{
+    spif_socket_t k = spif_socket_new();
+    spif_str_t d = S("payload"), e = spif_str_new(), r;
+    int sv[2] = { -1, -1 };
+    switch (n % 4) {
+        case 0: break;                                                    /* fd -1: EBADF */
+        case 1: if (socketpair(AF_UNIX, SOCK_STREAM, 0, sv) == 0) { k->fd = sv[0]; close(sv[1]); sv[1] = -1; } break;   /* EPIPE */
+        case 2: k->fd = open("/dev/null", O_RDONLY); break;             /* EBADF for writing */
+        default: if (socketpair(AF_UNIX, SOCK_STREAM, 0, sv) == 0) { k->fd = sv[0]; (void) !write(sv[1], "line one\nline two", 17); close(sv[1]); sv[1] = -1; } break;
+    }
+    spif_socket_send(k, (spif_str_t) NULL);       /* refused */
+    spif_socket_send(k, e);                       /* refused: empty */
+    if (k->fd >= 0 && n % 4 == 3) {
+        r = spif_socket_recv(k);
+        if (!SPIF_STR_ISNULL(r)) spif_str_del(r);
+        r = spif_socket_recv(k);                  /* end of file */
+        if (!SPIF_STR_ISNULL(r)) spif_str_del(r);
+    }
+    spif_socket_send(k, d);
+    spif_socket_send(k, d);
+    scn_del_sock(k);
+    spif_str_del(d); spif_str_del(e);
+}
+static void scn_urlerr(int n)
+{
+    static const char *const bad[] = { "", ":", "://", "http://", "http://host:port:extra/", "user@", "@", "http://:@:/?",
+                                       "nosuchproto://h", "//", "?q", "a:b@c", "http://[", "/", "http://u:p@/", ":80",
+                                       "mailto:", "http://host:99999999999999999999/", "x://@:", "@@@@", "http://a@b@c:1:2/3?4?5",
+                                       "::::", "http:///", "?", "://@:/?" };
+    const char *t = bad[n % (int) (sizeof(bad) / sizeof(bad[0]))];
+    spif_url_t u = U(t), d;
+    spif_str_t s = S(t), w;
+    spif_url_t v = spif_url_new_from_str(s), e = spif_url_new();
+    if (!SPIF_URL_ISNULL(u)) {
+        w = spif_url_show(u, (spif_charptr_t) "u", (spif_str_t) NULL, 0);
+        if (!SPIF_STR_ISNULL(w)) spif_str_del(w);
+        d = spif_url_dup(u);
+        if (!SPIF_URL_ISNULL(d)) { spif_url_unparse(d); spif_url_del(d); }
+        spif_url_unparse(u);
+        spif_url_set_host(u, S("other.example"));
+        spif_url_set_port(u, (spif_str_t) NULL);
+        spif_url_unparse(u);
+        spif_url_del(u);
+    }
+    if (!SPIF_URL_ISNULL(v)) spif_url_del(v);
+    if (!SPIF_URL_ISNULL(e)) {
+        d = spif_url_dup(e);
+        if (!SPIF_URL_ISNULL(d)) spif_url_del(d);
+        spif_url_unparse(e);
+        spif_url_del(e);
+    }
+    spif_str_del(s);
+}
+static void scn_reerr(int n)
+{
+    static const char *const bad[] = { "(", "[a-", "*", "a{2,1}", "(?<", "\\", "a)", "(?P<n>a)(?P<n>b)", "[[:nosuch:]]", "(?z)", "\\c", "a**" , "" };
+    const char *t = bad[n % (int) (sizeof(bad) / sizeof(bad[0]))];
+    spif_regexp_t r = spif_regexp_new_from_ptr((spif_charptr_t) t), d, e;
+    spif_str_t s = S(t), subj = S("subject");
+    spif_regexp_t q = spif_regexp_new_from_str(s);
+    if (!SPIF_REGEXP_ISNULL(r)) {
+        spif_regexp_compile(r);                              /* fails again */
+        spif_regexp_matches_str(r, (spif_str_t) NULL);       /* refused */
+        spif_regexp_matches_ptr(r, (spif_charptr_t) NULL);   /* refused */
+        spif_regexp_set_flags(r, (spif_charptr_t) "iZq");    /* unknown flag letters, compiles again */
+        spif_regexp_set_flags(r, (spif_charptr_t) NULL);
+        d = spif_regexp_dup(r);
+        if (!SPIF_REGEXP_ISNULL(d)) spif_regexp_del(d);
+        spif_regexp_del(r);
+    }
+    if (!SPIF_REGEXP_ISNULL(q)) spif_regexp_del(q);
+    e = spif_regexp_new();                                   /* no pattern at all */
+    if (!SPIF_REGEXP_ISNULL(e)) {
+        spif_regexp_compile(e);                              /* refused */
+        d = spif_regexp_dup(e);
+        if (!SPIF_REGEXP_ISNULL(d)) spif_regexp_del(d);
+        spif_regexp_del(e);
+    }
+#if HAVE_REGEX_H
+    {   /* the plain-C helpers: a pattern that does not compile */
+        regex_t *rx = NULL;
+        spiftool_regexp_match_r((spif_charptr_t) "text", (spif_charptr_t) ((n % 2) ? "(" : "[a-"), &rx);
+        if (rx) { spiftool_regexp_match_r((spif_charptr_t) "text", (spif_charptr_t) "t", &rx); }
+        if (rx) { regfree(rx); FREE(rx); }
+        spiftool_regexp_match((spif_charptr_t) "text", (spif_charptr_t) "(");
+        spiftool_regexp_match((spif_charptr_t) NULL, (spif_charptr_t) NULL);      /* releases the static storage */
+    }
+#endif
+    spif_str_del(s); spif_str_del(subj);
+}
+static void scn_strerr(int n)
+{
+    spif_str_t a = S("hello world"), e = spif_str_new(), r, z = spif_str_new_from_ptr((spif_charptr_t) NULL);
+    spif_charptr_t p;
+    static const int idx[] = { -1, 11, 12, 100, -100, 0, 5, 10 };
+    static const int cnt[] = { -1, 100, 12, -100, 0, 7, 11 };
+    int i = idx[n % 8], c = cnt[n % 7];
+    r = spif_str_substr(a, i, c);                 if (!SPIF_STR_ISNULL(r)) spif_str_del(r);
+    p = spif_str_substr_to_ptr(a, i, c);          if (p) FREE(p);
+    r = spif_str_substr(e, i, c);                 if (!SPIF_STR_ISNULL(r)) spif_str_del(r);
+    p = spif_str_substr_to_ptr(e, 0, 0);          if (p) FREE(p);
+    spif_str_splice(a, i, c, e);
+    spif_str_splice(a, i, c, (spif_str_t) NULL);
+    spif_str_splice_from_ptr(a, i, c, (spif_charptr_t) "xy");
+    spif_str_splice_from_ptr(a, i, c, (spif_charptr_t) NULL);
+    spif_str_splice(e, i, c, a);
+    spif_str_append(a, (spif_str_t) NULL);
+    spif_str_append_from_ptr(a, (spif_charptr_t) NULL);
+    spif_str_prepend(a, (spif_str_t) NULL);
+    spif_str_prepend_from_ptr(a, (spif_charptr_t) NULL);
+    spif_str_find(a, (spif_str_t) NULL);
+    spif_str_find_from_ptr(a, (spif_charptr_t) NULL);
+    spif_str_append(e, e);
+    spif_str_prepend(e, e);
+    spif_str_trim(e);
+    spif_str_reverse(e);
+    spif_str_clear(e, 'x');
+    r = spif_str_dup(e);                          if (!SPIF_STR_ISNULL(r)) spif_str_del(r);
+    if (!SPIF_STR_ISNULL(z)) { spif_str_append_from_ptr(z, (spif_charptr_t) "x"); spif_str_del(z); }
+    {   /* streams that end at once, end without a newline, or hold more than one buffer */
+        char path[64];
+        static char big[10000];
+        int fd, k;
+        FILE *fp;
+        memset(big, 'b', sizeof(big) - 1);
+        for (k = 0; k < 3; k++) {
+            fd = lv_memfile(k == 0 ? "" : (k == 1 ? "no newline" : big), path, sizeof(path));
+            if (fd < 0) continue;
+            fp = fopen(path, "r");
+            if (fp) { r = spif_str_new_from_fp(fp); if (!SPIF_STR_ISNULL(r)) spif_str_del(r);
+                      r = spif_str_new_from_fp(fp); if (!SPIF_STR_ISNULL(r)) spif_str_del(r); fclose(fp); }
+            r = spif_str_new_from_fd(fd);         if (!SPIF_STR_ISNULL(r)) spif_str_del(r);
+            r = spif_str_new_from_fd(fd);         if (!SPIF_STR_ISNULL(r)) spif_str_del(r);
+            close(fd);
+        }
+        fd = open("/dev/null", O_WRONLY);         /* read() fails: EBADF */
+        if (fd >= 0) { r = spif_str_new_from_fd(fd); if (!SPIF_STR_ISNULL(r)) spif_str_del(r); close(fd); }
+    }
+    spif_str_del(a); spif_str_del(e);
+}
+static void scn_mbufferr(int n)
+{
+    spif_mbuff_t a = spif_mbuff_new_from_ptr((spif_byteptr_t) "hello world", 11), e = spif_mbuff_new(), r;
+    spif_byteptr_t p;
+    static const int idx[] = { -1, 11, 12, 100, -100, 0, 5, 10 };
+    static const int cnt[] = { -1, 100, 12, -100, 0, 7, 11 };
+    int i = idx[n % 8], c = cnt[n % 7];
+    r = spif_mbuff_subbuff(a, i, c);              if (!SPIF_MBUFF_ISNULL(r)) spif_mbuff_del(r);
+    p = spif_mbuff_subbuff_to_ptr(a, i, c);       if (p) FREE(p);
+    r = spif_mbuff_subbuff(e, i, c);              if (!SPIF_MBUFF_ISNULL(r)) spif_mbuff_del(r);
+    spif_mbuff_splice(a, i, c, a);
+    spif_mbuff_splice(a, i, c, (spif_mbuff_t) NULL);
+    spif_mbuff_splice_from_ptr(a, i, c, (spif_byteptr_t) "xy", 2);
+    spif_mbuff_splice_from_ptr(a, i, c, (spif_byteptr_t) NULL, 0);
+    spif_mbuff_splice(e, i, c, a);
+    spif_mbuff_append(a, (spif_mbuff_t) NULL);
+    spif_mbuff_append_from_ptr(a, (spif_byteptr_t) NULL, 0);
+    spif_mbuff_append_from_ptr(a, (spif_byteptr_t) "x", 0);
+    spif_mbuff_prepend(a, (spif_mbuff_t) NULL);
+    spif_mbuff_prepend_from_ptr(a, (spif_byteptr_t) NULL, 0);
+    spif_mbuff_find(a, (spif_mbuff_t) NULL);
+    spif_mbuff_find_from_ptr(a, (spif_byteptr_t) NULL, 0);
+    spif_mbuff_append(e, e);
+    spif_mbuff_prepend(e, e);
+    spif_mbuff_trim(e);
+    spif_mbuff_reverse(e);
+    r = spif_mbuff_dup(e);                        if (!SPIF_MBUFF_ISNULL(r)) spif_mbuff_del(r);
+    {
+        char path[64];
+        int fd, k;
+        FILE *fp;
+        for (k = 0; k < 2; k++) {
+            fd = lv_memfile(k == 0 ? "" : "some bytes", path, sizeof(path));
+            if (fd < 0) continue;
+            fp = fopen(path, "r");
+            if (fp) { r = spif_mbuff_new_from_fp(fp); if (!SPIF_MBUFF_ISNULL(r)) spif_mbuff_del(r); fclose(fp); }
+            r = spif_mbuff_new_from_fd(fd);       if (!SPIF_MBUFF_ISNULL(r)) spif_mbuff_del(r);
+            close(fd);
+        }
+        fd = open("/dev/null", O_WRONLY);
+        if (fd >= 0) { r = spif_mbuff_new_from_fd(fd); if (!SPIF_MBUFF_ISNULL(r)) spif_mbuff_del(r); close(fd); }
+    }
+    spif_mbuff_del(a); spif_mbuff_del(e);
+}
+static void scn_tokerr(int n)
+{
+    static const char *const src[] = { "", "   ", "'abc", "\"a b", "abc\\", " \t ", "a 'b", "a\\", "''", "\"\"\"", "a'b\"c", "\\", "'", "x  y  ", "\\'" };
+    const char *t = src[n % (int) (sizeof(src) / sizeof(src[0]))];
+    spif_tok_t k = spif_tok_new_from_ptr((spif_charptr_t) t), d, e = spif_tok_new();
+    spif_str_t w;
+    if (!SPIF_TOK_ISNULL(e)) {
+        spif_tok_eval(e);                                     /* refused: no source */
+        d = spif_tok_dup(e);
+        if (!SPIF_TOK_ISNULL(d)) spif_tok_del(d);
+        spif_tok_del(e);
+    }
+    if (!SPIF_TOK_ISNULL(k)) {
+        d = spif_tok_dup(k);                                  /* not yet evaluated */
+        if (!SPIF_TOK_ISNULL(d)) { spif_tok_eval(d); spif_tok_del(d); }
+        spif_tok_eval(k);
+        spif_tok_eval(k);                                     /* a second evaluation replaces the first */
+        w = spif_tok_show(k, (spif_charptr_t) "k", (spif_str_t) NULL, 0);
+        if (!SPIF_STR_ISNULL(w)) spif_str_del(w);
+        d = spif_tok_dup(k);
+        if (!SPIF_TOK_ISNULL(d)) spif_tok_del(d);
+        spif_tok_set_src(k, S("new 'source"));
+        spif_tok_eval(k);
+        spif_tok_del(k);
+    }
+    {
+        char path[64];
+        int fd = lv_memfile(t, path, sizeof(path));
+        FILE *fp;
+        if (fd >= 0) {
+            fp = fopen(path, "r");
+            if (fp) { k = spif_tok_new_from_fp(fp); if (!SPIF_TOK_ISNULL(k)) { spif_tok_eval(k); spif_tok_del(k); } fclose(fp); }
+            k = spif_tok_new_from_fd(fd);
+            if (!SPIF_TOK_ISNULL(k)) { spif_tok_eval(k); spif_tok_del(k); }
+            close(fd);
+        }
+    }
+}
+static void *scn_ctx(spif_charptr_t buff, void *state) { (void) buff; return state; }
+static void scn_conferr(int n)
+{
+    static const char *const body[] = {
+        NULL,                                                     /* the file does not exist */
+        "",                                                       /* empty: no magic */
+        "no magic string here\nfoo bar\n",
+        "<lv-99.0>\nfoo\n",                                       /* written for a newer version */
+        "<lv-0.1>\nbegin nosuchcontext\n  attr value\nend\n",
+        "<lv-0.1>\nend\nend nothing\n",
+        "<lv-0.1>\n%include /nonexistent-lv-c15-dir/other.cfg\n%include \n%include\n",
+        "<lv-0.1>\nbegin lvctx\n  a $(NOSUCHVAR ${ALSO `unterminated\n  b %get(nosuch) %put(k v) %get(k) %random(a b c)\n  c %dirscan(/proc/self) %dirscan(a b) %dirscan()\nend\n",
+        "<lv-0.1>\nbegin lvctx\n  a %nosuchbuiltin(x) %(  %get( %put(only\n  b %dirscan(/nonexistent-lv-c15-dir) %version() %appname()\n",
+        "<lv-0.1>\n%\n% \n%include /dev/null\nbegin lvctx\nbegin lvctx\nbegin lvctx\n",
+        "<lv-0.1>\nbegin lvctx\n  v \\\n  'q\n  \"dq\n  $\n  ${\n  %put(a)\n  %put()\n  %get(a b c)\nend lvctx\nend\nend\n",
+        "<lv-0.1",                                                /* magic line cut short, no newline */
+    };
+    int v = n % (int) (sizeof(body) / sizeof(body[0]));
+    char path[64] = "/nonexistent-lv-c15-dir/none.cfg";
+    int fd = -1, k;
+    spif_charptr_t r;
+    const char *save_name = libast_program_name, *save_ver = libast_program_version;
+    libast_program_name = "lv";
+    libast_program_version = "1.0";
+    spifconf_init_subsystem();
+    spifconf_register_context((spif_charptr_t) "lvctx", (ctx_handler_t) scn_ctx);
+    if (body[v]) fd = lv_memfile(body[v], path, sizeof(path));
+    if (n >= 12 && n % 2 && fd >= 0) {
+        /* the same text followed by a line longer than the line buffer, then more text */
+        static char big[3 * CONFIG_BUFF];
+        lseek(fd, 0, SEEK_END);
+        memset(big, 'L', sizeof(big) - 2);
+        big[sizeof(big) - 2] = '\n';
+        (void) !write(fd, "\n", 1);
+        (void) !write(fd, big, sizeof(big) - 1);
+        (void) !write(fd, "begin lvctx\n x y\nend\n", 21);
+        lseek(fd, 0, SEEK_SET);
+    }
+    for (k = 0; k < 2; k++) {
+        r = spifconf_parse((spif_charptr_t) path, (spif_charptr_t) NULL, (spif_charptr_t) NULL);
+        if (r) FREE(r);
+        if (fd >= 0) lseek(fd, 0, SEEK_SET);
+    }
+    r = spifconf_parse((spif_charptr_t) "none.cfg", (spif_charptr_t) "nodir", (spif_charptr_t) "/nonexistent-lv-c15-dir:/also-not-there");
+    if (r) FREE(r);
+    {   /* the expander on its own (spifconf_parse_line(NULL, ...) takes a fatal ASSERT exit at level >= 1) */
+        char line[CONFIG_BUFF];
+        snprintf(line, sizeof(line), "lvctx attr %s", (n % 2) ? "$(NOSUCH `x" : "%get(nosuch) %put(k) ${");
+        spifconf_shell_expand((spif_charptr_t) line);
+    }
+    spifconf_free_subsystem();
+    if (fd >= 0) close(fd);
+    libast_program_name = save_name;
+    libast_program_version = save_ver;
+}
+static void scn_conterr(int which, int n)
+{
+    /* refused and failing operations on a container holding n items */
+    spif_list_t l = (which == 0) ? SPIF_LIST_NEW(array) : ((which == 1) ? SPIF_LIST_NEW(linked_list) : SPIF_LIST_NEW(dlinked_list));
+    spif_map_t m = (which == 0) ? SPIF_MAP_NEW(array) : ((which == 1) ? SPIF_MAP_NEW(linked_list) : SPIF_MAP_NEW(dlinked_list));
+    spif_vector_t v = (which == 0) ? SPIF_VECTOR_NEW(array) : ((which == 1) ? SPIF_VECTOR_NEW(linked_list) : SPIF_VECTOR_NEW(dlinked_list));
+    spif_str_t k, miss = S("not-in-there");
+    spif_obj_t o, *arr;
+    spif_iterator_t it;
+    spif_list_t out;
+    char b[32];
+    int i;
+    static const int far[] = { -1, -5, 1000, 7, -1000 };
+    for (i = 0; i < n; i++) {
+        sprintf(b, "e-%d", i);
+        SPIF_LIST_APPEND(l, S(b));
+        SPIF_VECTOR_INSERT(v, S(b));
+        k = S(b); SPIF_MAP_SET(m, k, k); spif_str_del(k);
+    }
+    for (i = 0; i < 5; i++) {
+        int x = far[i] + ((far[i] > 0 && far[i] < 100) ? n : 0);
+        o = SPIF_LIST_REMOVE_AT(l, x);            if (!SPIF_OBJ_ISNULL(o)) SPIF_OBJ_DEL(o);
+        (void) SPIF_LIST_GET(l, x);
+    }
+    o = SPIF_LIST_REMOVE(l, miss);                if (!SPIF_OBJ_ISNULL(o)) SPIF_OBJ_DEL(o);
+    (void) SPIF_LIST_FIND(l, miss);
+    (void) SPIF_LIST_INDEX(l, miss);
+    (void) SPIF_LIST_CONTAINS(l, miss);
+    k = S("far");
+    if (!SPIF_LIST_INSERT_AT(l, k, n + 3)) spif_str_del(k);       /* beyond the end; a refused item stays the caller's */
+    k = S("neg");
+    if (!SPIF_LIST_INSERT_AT(l, k, -(n + 5))) spif_str_del(k);    /* before the start */
+    SPIF_LIST_REVERSE(l);
+    arr = SPIF_LIST_TO_ARRAY(l);                  if (arr) FREE(arr);
+    it = SPIF_LIST_ITERATOR(l);
+    if (!SPIF_ITERATOR_ISNULL(it)) { while (SPIF_ITERATOR_HAS_NEXT(it)) (void) SPIF_ITERATOR_NEXT(it); (void) SPIF_ITERATOR_NEXT(it); SPIF_ITERATOR_DEL(it); }
+    o = SPIF_VECTOR_REMOVE(v, miss);              if (!SPIF_OBJ_ISNULL(o)) SPIF_OBJ_DEL(o);
+    (void) SPIF_VECTOR_FIND(v, miss);
+    (void) SPIF_VECTOR_CONTAINS(v, miss);
+    arr = SPIF_VECTOR_TO_ARRAY(v);                if (arr) FREE(arr);
+    it = SPIF_VECTOR_ITERATOR(v);
+    if (!SPIF_ITERATOR_ISNULL(it)) { while (SPIF_ITERATOR_HAS_NEXT(it)) (void) SPIF_ITERATOR_NEXT(it); (void) SPIF_ITERATOR_NEXT(it); SPIF_ITERATOR_DEL(it); }
+    o = SPIF_MAP_REMOVE(m, miss);                 if (!SPIF_OBJ_ISNULL(o)) SPIF_OBJ_DEL(o);
+    (void) SPIF_MAP_GET(m, miss);
+    (void) SPIF_MAP_HAS_KEY(m, miss);
+    (void) SPIF_MAP_HAS_VALUE(m, miss);
+    for (i = 0; i < n; i += 2) {                  /* set an existing key again: the old value goes */
+        sprintf(b, "e-%d", i);
+        k = S(b); SPIF_MAP_SET(m, k, miss); spif_str_del(k);
+    }
+    out = SPIF_MAP_GET_KEYS(m, (spif_list_t) NULL);     if (!SPIF_LIST_ISNULL(out)) SPIF_LIST_DEL(out);
+    out = SPIF_MAP_GET_VALUES(m, (spif_list_t) NULL);   if (!SPIF_LIST_ISNULL(out)) SPIF_LIST_DEL(out);
+    out = SPIF_MAP_GET_PAIRS(m, (spif_list_t) NULL);    if (!SPIF_LIST_ISNULL(out)) SPIF_LIST_DEL(out);
+    it = SPIF_MAP_ITERATOR(m);
+    if (!SPIF_ITERATOR_ISNULL(it)) { while (SPIF_ITERATOR_HAS_NEXT(it)) (void) SPIF_ITERATOR_NEXT(it); (void) SPIF_ITERATOR_NEXT(it); SPIF_ITERATOR_DEL(it); }
+    SPIF_LIST_DEL(l); SPIF_VECTOR_DEL(v); SPIF_MAP_DEL(m);
+    spif_str_del(miss);
+}
+static void scn_toolerr(int n)
+{
+    static const char *const txt[] = { "", "   ", "'unterminated quote", "a\\", "\"", ":::", "one", " 'a b' \"c", "\\ ", "a  b" };
+    const char *t = txt[n % 10];
+    spif_charptr_t *w, j;
+    spif_charptr_t none[1] = { NULL };
+    w = spiftool_split((spif_charptr_t) NULL, (spif_charptr_t) NULL);       /* refused */
+    if (w) spiftool_free_array(w, 0);
+    w = spiftool_split((spif_charptr_t) ((n % 2) ? ":" : NULL), (spif_charptr_t) t);
+    if (w) { j = spiftool_join((spif_charptr_t) NULL, w); if (j) FREE(j); spiftool_free_array(w, 0); }
+    j = spiftool_join((spif_charptr_t) ",", none);                          /* refused: empty list */
+    if (j) FREE(j);
+    j = spiftool_substr((spif_charptr_t) NULL, 0, 1);                       if (j) FREE(j);
+    j = spiftool_substr((spif_charptr_t) "abc", 3, 1);                      if (j) FREE(j);
+    j = spiftool_substr((spif_charptr_t) "abc", 7 + n, -1);                 if (j) FREE(j);
+    j = spiftool_substr((spif_charptr_t) "abc", -1 - n, 100);               if (j) FREE(j);
+    j = spiftool_get_word(5 + n, (spif_charptr_t) t);                       if (j) FREE(j);
+    j = spiftool_get_word(0, (spif_charptr_t) t);                           if (j) FREE(j);
+    j = spiftool_get_word(1, (spif_charptr_t) t);                           if (j) FREE(j);
+    (void) spiftool_get_pword(5 + n, (spif_charptr_t) t);
+    (void) spiftool_num_words((spif_charptr_t) t);
+}
+static void scn_moderr(int n)
+{
+    spif_module_t m = spif_module_new(), d;
+    spif_str_t w;
+    if (SPIF_MODULE_ISNULL(m)) return;
+    spif_module_load(m);                                      /* refused: no path */
+    spif_module_unload(m);                                    /* refused: nothing loaded */
+    spif_module_set_path(m, S((n % 2) ? "/nonexistent-lv-c15-dir/libnone.so" : "no-slash-no-such-module.so"));
+    spif_module_load(m);                                      /* dlopen fails */
+    spif_module_load(m);
+    spif_module_getsym(m, (spif_charptr_t) "no_such_symbol_lv_c15");
+    /* not spif_module_call()/run(): they call through the NULL symbol (uninitialised `err`) */
+    w = spif_module_show(m, (spif_charptr_t) "m", (spif_str_t) NULL, 0);
+    if (!SPIF_STR_ISNULL(w)) spif_str_del(w);
+    d = spif_module_dup(m);
+    if (!SPIF_MODULE_ISNULL(d)) spif_module_del(d);
+    spif_module_del(m);
+}
+static void scn_pairerr(int n)
+{
+    spif_str_t k = S("k"), v = S("v");
+    spif_objpair_t p, q;
+    switch (n % 4) {
+        case 0: p = spif_objpair_new(); break;
+        case 1: p = spif_objpair_new_from_key(SPIF_OBJ(k)); break;
+        case 2: p = spif_objpair_new_from_value(SPIF_OBJ(v)); break;
+        default: p = spif_objpair_new_from_both(SPIF_OBJ(k), SPIF_OBJ(v)); break;
+    }
+    if (!SPIF_OBJPAIR_ISNULL(p)) {
+        spif_str_t w = spif_objpair_show(p, (spif_charptr_t) "p", (spif_str_t) NULL, 0);
+        if (!SPIF_STR_ISNULL(w)) spif_str_del(w);
+        q = spif_objpair_dup(p);
+        if (!SPIF_OBJPAIR_ISNULL(q)) { spif_objpair_comp(p, SPIF_OBJ(q)); spif_objpair_del(q); }
+        spif_objpair_comp(p, SPIF_OBJ(k));
+        spif_objpair_del(p);
+    }
+    spif_str_del(k); spif_str_del(v);
+}
+static int lv_err_scenario(const char *name, int n)
+{
+    if (!strcmp(name, "e-accept")) scn_sockaccept(n);
+    else if (!strcmp(name, "e-sockopen")) scn_sockopen(n);
+    else if (!strcmp(name, "e-sockio")) scn_sockio(n);
+    else if (!strcmp(name, "e-url")) scn_urlerr(n);
+    else if (!strcmp(name, "e-regexp")) scn_reerr(n);
+    else if (!strcmp(name, "e-str")) scn_strerr(n);
+    else if (!strcmp(name, "e-mbuff")) scn_mbufferr(n);
+    else if (!strcmp(name, "e-tok")) scn_tokerr(n);
+    else if (!strcmp(name, "e-conf")) scn_conferr(n);
+    else if (!strcmp(name, "e-array")) scn_conterr(0, n);
+    else if (!strcmp(name, "e-llist")) scn_conterr(1, n);
+    else if (!strcmp(name, "e-dlist")) scn_conterr(2, n);
+    else if (!strcmp(name, "e-tool")) scn_toolerr(n);
+    else if (!strcmp(name, "e-module")) scn_moderr(n);
+    else if (!strcmp(name, "e-pair")) scn_pairerr(n);
+    else return 0;
+    return 1;
+}
+
 static int lv_scenario(const char *name, int n)
 {
     int i;
+    if (name[0] == 'e' && name[1] == '-') return lv_err_scenario(name, n);
     if (!strcmp(name, "adup")) { scn_listdup(SPIF_LIST_NEW(array), n); return 1; }
     if (!strcmp(name, "ldup")) { scn_listdup(SPIF_LIST_NEW(linked_list), n); return 1; }
     if (!strcmp(name, "ddup")) { scn_listdup(SPIF_LIST_NEW(dlinked_list), n); return 1; }
@@ -397,6 +898,7 @@ static void run_case(int ntok, char **tok)
 
     lv_quiet();
     lv_reset();
+    signal(SIGPIPE, SIG_IGN);        /* a send to a closed peer is an error return, not a signal */
     if (ntok < 2) { printf("HARNESS-ERROR:bad-case"); return; }
     build = atoi(tok[1]);
     if ((build >= DEBUG_MEM) != (DEBUG >= DEBUG_MEM)) { printf("SKIP"); return; }
@@ -510,7 +1012,7 @@ static void run_case(int ntok, char **tok)
     printf(" | H");
     {
         long a;
-        for (a = 1; a <= LV_NSLOT; a++) if (lv_islive[a]) printf(" %ld:%lu", a, (unsigned long) lv_sz[a]);
+        for (a = 1; a <= lv_hi; a++) if (lv_islive[a]) printf(" %ld:%lu", a, (unsigned long) lv_sz[a]);
     }
     lv_reset();
 }
